@@ -1377,6 +1377,86 @@ def proj_verdict(Rg, v, d, q, spec=None, p=None):
     return None
 
 
+def seq_run(shape, steps, upto=None):
+    """several mesh operations on ONE footprint object -> list of (status, value) per step"""
+    fp = build(("foot", shape))
+    out = []
+    for box, op in steps[: (upto + 1) if upto is not None else None]:
+        out.append(run_op(build(box), fp, op))
+    return out
+
+
+def seq_probe_verdict(shape, box, op, val, p):
+    """set semantics of box `op` footprint at one probe, against fresh objects -> (inBox, inFoot, inResult, expected)"""
+    v = vec(p)
+    ina = py_mem3(build(box), v)
+    inb = bool(build(("foot", shape)).containsPoint(v))
+    return ina, inb, py_mem3(val, v), expected(op, ina, inb)
+
+
+def sequence_checks(ctx, rng):
+    """state kept between operations (a footprint caches the vertically bounded slab built for the previous mesh
+    operation; results are cached on region objects): a sequence of operations on the SAME footprint object with boxes of
+    very different vertical extent must obey set semantics at every step, exactly as fresh objects do"""
+    found = False
+    pats = ["below", "above", "random"]
+    for i in range(ctx.budget(6, 36)):
+        shape = ("poly", gen_poly(rng)[0])
+        pat = pats[i % 3]
+        cz1 = rng.choice([Fr(0), Fr(2), Fr(-2)])
+        b1 = ("vol", (d8(rng, 2, 4), d8(rng, 2, 4), cz1), (d8(rng, 1, 3), d8(rng, 1, 3), rng.choice([Fr(1, 2), Fr(1)])), (1, 0, 0, 0))
+        hz2 = rng.choice([Fr(150), Fr(400), Fr(60)])
+        if pat == "below":
+            cz2 = cz1 + rng.choice([Fr(1), Fr(5), Fr(20)]) - hz2
+        elif pat == "above":
+            cz2 = cz1 - rng.choice([Fr(1), Fr(5), Fr(20)]) + hz2
+        else:
+            cz2 = rng.choice([Fr(0), Fr(-60), Fr(120), Fr(-400)])
+        b2 = ("vol", (d8(rng, 2, 4), d8(rng, 2, 4), cz2), (d8(rng, 1, 3), d8(rng, 1, 3), hz2), (1, 0, 0, 0))
+        steps = [(b1, rng.choice(["intersect", "difference", "intersects"])), (b2, "intersect"), (b2, "difference")]
+        if rng.random() < 0.3:
+            steps.append((b1, "intersect"))
+        try:
+            outs = seq_run(shape, steps)
+        except Exception as e:  # noqa
+            ctx.hist("sequence", "generator:" + type(e).__name__)
+            continue
+        for si, ((box, op), (st, val)) in enumerate(zip(steps, outs)):
+            ctx.case(("seq", spec_json(shape), spec_json(tuple(steps[: si + 1]))), nontrivial=si > 0)
+            ctx.hist("sequence", f"{pat}:step{si}:{op}:{st}")
+            if st == "crash":
+                if ctx.violation(f"crash:sequence:{op}:vol-foot:{val}", f"step {si} of a sequence of mesh operations on one footprint raised {val}",
+                                 {"kind": "seq", "shape": spec_json(shape), "steps": spec_json(tuple(steps)), "step": si}):
+                    found = True
+                break
+            if st != "ok":
+                continue
+            c, h = box[1], box[2]
+            bad = None
+            for f in (Fr(-15, 16), Fr(-3, 4), Fr(-1, 2), Fr(-1, 4), Fr(0), Fr(1, 4), Fr(1, 2), Fr(3, 4), Fr(15, 16)):
+                for _ in range(3):
+                    pnt = (d8(rng, -1, 8), d8(rng, -1, 8), c[2] + f * h[2])
+                    if any(abs(abs(pnt[j] - c[j]) - h[j]) <= MARGIN for j in range(3)) or near_py(("foot", shape), pnt):
+                        continue
+                    ina, inb, inr, want = seq_probe_verdict(shape, box, op, val, pnt)
+                    if inr != want:
+                        bad = (pnt, ina, inb, inr, want)
+                        break
+                if bad:
+                    break
+            if bad:
+                pnt, ina, inb, inr, want = bad
+                if ctx.violation(f"sequence:{op}:vol-foot", f"step {si} ({op}) of a sequence of mesh operations on ONE footprint object: point "
+                                 f"{[float(t) for t in pnt]} in box: {ina}, in footprint: {inb}, in result: {inr} (expected {want}); "
+                                 f"earlier steps used boxes with z-centre/half-height "
+                                 f"{[(float(b[1][2]), float(b[2][2])) for b, _ in steps[:si]]}, this one {(float(c[2]), float(h[2]))}",
+                                 {"kind": "seq", "shape": spec_json(shape), "steps": spec_json(tuple(steps)), "step": si,
+                                  "probe": spec_json(pnt)}):
+                    found = True
+                break
+    return found
+
+
 def workspace_checks(ctx):
     """workspaces.py: a Workspace delegates every region operation to its region, including the reversed dispatch"""
     M = real()
@@ -1647,6 +1727,21 @@ def replay(ctx, path):
         except Exception as e:  # noqa
             print("projectVector raised", type(e).__name__, e)
             failing = True
+    elif kind == "seq":
+        shape, steps, si = spec_unjson(rep["shape"]), spec_unjson(rep["steps"]), rep["step"]
+        steps = [(b, o) for b, o in steps]
+        outs = seq_run(shape, steps, upto=si)
+        st, val = outs[si]
+        box, op = steps[si]
+        print(f"step {si}: box(z-centre {float(box[1][2])}, half height {float(box[2][2])}).{op}(footprint) after",
+              [(o, float(b[1][2]), float(b[2][2])) for b, o in steps[:si]], "->", st, py_type(val) if st == "ok" else val)
+        if st == "crash":
+            failing = True
+        elif st == "ok" and "probe" in rep:
+            pnt = spec_unjson(rep["probe"])
+            ina, inb, inr, want = seq_probe_verdict(shape, box, op, val, pnt)
+            print("probe", [float(t) for t in pnt], "in box:", ina, "in footprint:", inb, "in result:", inr, "expected:", want)
+            failing = inr != want
     elif kind == "workspace":
         r = _Rec()
         workspace_checks(r)
